@@ -228,7 +228,7 @@ def _eval_const(expr: str, env: dict):
         if isinstance(n, ast.UnaryOp) and type(n.op) in _UN:
             v = ev(n.operand)
             if isinstance(n.op, ast.UAdd):
-                return v
+                return +v
             if isinstance(n.op, ast.USub):
                 return -v
             if isinstance(n.op, ast.Not):
@@ -1582,6 +1582,75 @@ def _collect_try_structure(lines: List[str], start: int) -> Tuple[List[str], int
     return snippet, i
 
 
+def _copy_const_env(env: Dict[str, object]) -> Dict[str, object]:
+    """Copy the constant environment for a nested scope.
+
+    Tracked lists are copied as well: an ``append``/``remove`` parsed inside the
+    scope must not reach the value the enclosing scope knows.
+    """
+
+    return {
+        name: value[:] if isinstance(value, list) else value
+        for name, value in env.items()
+    }
+
+
+def _written_names(lines: List[str]) -> List[str]:
+    """Names the statements in ``lines`` bind or mutate, at any depth, one per site."""
+
+    names: List[str] = []
+    for raw in lines:
+        text = _strip_inline_comment(raw).strip()
+        m = RE_FOR_RANGE.match(text)
+        if m:
+            names.append(m.group(1))
+            continue
+        m = RE_EXCEPT.match(text)
+        if m:
+            if m.group(2):
+                names.append(m.group(2))
+            continue
+        try:
+            module = ast.parse(text, mode="exec")
+        except SyntaxError:
+            continue
+        for stmt in module.body:
+            targets: List[ast.AST] = []
+            if isinstance(stmt, ast.Assign):
+                targets = list(stmt.targets)
+            elif isinstance(stmt, (ast.AugAssign, ast.AnnAssign)):
+                targets = [stmt.target]
+            elif (
+                isinstance(stmt, ast.Expr)
+                and isinstance(stmt.value, ast.Call)
+                and isinstance(stmt.value.func, ast.Attribute)
+                and isinstance(stmt.value.func.value, ast.Name)
+                and stmt.value.func.attr in {"append", "remove"}
+            ):
+                names.append(stmt.value.func.value.id)
+            for target in targets:
+                names.extend(
+                    n.id for n in ast.walk(target) if isinstance(n, ast.Name)
+                )
+    return names
+
+
+def _forget_names(ctx: Dict[str, object], names: List[str]) -> None:
+    """Stop treating ``names`` as known at transpile time in ``ctx``.
+
+    Used for everything a block that may be skipped or repeated writes: its
+    value after (and, for a loop, inside) the block depends on the path taken.
+    """
+
+    env: Dict[str, object] = ctx.setdefault("vars", {})
+    list_info: Dict[str, Dict[str, Optional[int]]] = ctx.setdefault("list_info", {})
+    for name in names:
+        if name in env:
+            env[name] = _ExprStr(name)
+        if name in list_info:
+            list_info[name]["length"] = None
+
+
 def _parse_function(
     name: str,
     params_src: str,
@@ -1636,7 +1705,10 @@ def _parse_function(
     defs.setdefault(name, {})
 
     child_ctx: Dict[str, object] = dict(ctx)
-    child_ctx["vars"] = dict(ctx.get("vars", {}))
+    child_ctx["vars"] = _copy_const_env(ctx.get("vars", {}))
+    # The body runs at the calls, not here: only names the script binds once and
+    # never mutates still have the value known now.
+    _forget_names(child_ctx, ctx.get("_rebound_names", ()))
     child_ctx["var_types"] = dict(ctx.get("var_types", {}))
     child_ctx["var_declared"] = set(ctx.get("var_declared", set()))
     child_ctx["_base_declared"] = set(child_ctx["var_declared"])
@@ -1671,6 +1743,13 @@ def _parse_function(
         child_ctx["vars"][arg.arg] = _ExprStr(arg.arg)
         params_order.append((arg.arg, idx))
         param_names.append(arg.arg)
+
+    # What the body writes changes whenever the function is called.
+    volatile: List[str] = ctx.setdefault("_function_written", [])
+    volatile.extend(
+        n for n in _written_names(block) if n not in param_names and n not in volatile
+    )
+    _forget_names(ctx, volatile)
 
     body_nodes = _parse_simple_lines(
         block,
@@ -2573,6 +2652,8 @@ def _parse_simple_lines(
         # This updates env before we evaluate Led(...) or sleep(...)
         assignment_nodes = _handle_assignment_ast(line, ctx, scope, depth)
         if assignment_nodes is not None:
+            if scope != "function":
+                _forget_names(ctx, ctx.get("_function_written", ()))
             body.extend(assignment_nodes)
             i += 1
             continue
@@ -2587,7 +2668,7 @@ def _parse_simple_lines(
             base_declared = set(ctx.get("var_declared", set()))
             def _branch_ctx() -> Dict[str, object]:
                 child = dict(ctx)
-                child["vars"] = dict(base_ctx_vars)
+                child["vars"] = _copy_const_env(base_ctx_vars)
                 child["var_types"] = dict(base_types)
                 child["var_declared"] = set(base_declared)
                 child["_base_declared"] = set(base_declared)
@@ -2694,6 +2775,7 @@ def _parse_simple_lines(
                 _make_promotion_decls(promoted_names, ctx, scope, depth)
             )
             body.append(IfStatement(branches=branches, else_body=else_body))
+            _forget_names(ctx, _written_names(snippet[i + 1 : j]))
             i = j
             continue
 
@@ -2708,7 +2790,7 @@ def _parse_simple_lines(
 
             def _child_ctx() -> Dict[str, object]:
                 child = dict(ctx)
-                child["vars"] = dict(base_ctx_vars)
+                child["vars"] = _copy_const_env(base_ctx_vars)
                 child["var_types"] = dict(base_types)
                 child["var_declared"] = set(base_declared)
                 child["_base_declared"] = set(base_declared)
@@ -2794,15 +2876,18 @@ def _parse_simple_lines(
                     )
 
             body.append(TryStatement(try_body=try_body, handlers=handlers))
+            _forget_names(ctx, _written_names(snippet[i + 1 : j]))
             i = j
             continue
 
         m = RE_WHILE.match(line)
         if m:
-            cond_expr = _to_c_expr(m.group(1), vars, ctx)
             block, next_idx = _collect_block(snippet, i)
+            # The condition and the body are evaluated again after every pass.
+            _forget_names(ctx, _written_names(block))
+            cond_expr = _to_c_expr(m.group(1), vars, ctx)
             child_ctx: Dict[str, object] = dict(ctx)
-            child_ctx["vars"] = dict(vars)
+            child_ctx["vars"] = _copy_const_env(vars)
             child_ctx["var_types"] = dict(ctx.get("var_types", {}))
             base_declared = set(ctx.get("var_declared", set()))
             child_ctx["var_declared"] = set(base_declared)
@@ -2881,8 +2966,9 @@ def _parse_simple_lines(
                 raise ValueError("for-range loops require a single range(count) argument")
             count = _resolve_numeric_arg(count_arg, 0)
             block, next_idx = _collect_block(snippet, i)
+            _forget_names(ctx, [var_name] + _written_names(block))
             child_ctx = dict(ctx)
-            child_ctx["vars"] = dict(vars)
+            child_ctx["vars"] = _copy_const_env(vars)
             child_ctx["var_types"] = dict(ctx.get("var_types", {}))
             base_declared = set(ctx.get("var_declared", set()))
             base_with_loop_var = set(base_declared)
@@ -4215,15 +4301,13 @@ def _parse_simple_lines(
                                 arg_value = _eval_const(arg_src, vars)
                             except Exception:
                                 arg_value = None
-                        if isinstance(current, list):
+                        if isinstance(current, list) and arg_value is not None:
                             if expr_node.func.attr == "append":
                                 current.append(arg_value)
-                            else:
-                                if arg_value is not None and arg_value in current:
-                                    current.remove(arg_value)
-                                elif arg_value is None and current:
-                                    current.pop(0)
+                            elif arg_value in current:
+                                current.remove(arg_value)
                         else:
+                            # argument only known at run time: so is the list from here on
                             vars[owner_name] = _ExprStr(owner_name)
                 if _expr_has_name(expr_node):
                     body.append(ExprStmt(expr=expr_c))
@@ -4291,6 +4375,9 @@ def parse(src: str) -> Program:
         "potentiometer_pins": {},
     }
     ctx["vars"]["_helpers"] = ctx["helpers"]
+    write_sites = _written_names(lines)
+    ctx["_rebound_names"] = [n for n in write_sites if write_sites.count(n) > 1]
+    ctx["_function_written"] = []
 
     i = 0
     while i < len(lines):
@@ -4327,6 +4414,8 @@ def parse(src: str) -> Program:
         # controls
         if _indent_of(raw) == 0 and RE_WHILE_TRUE.match(text):
             block, i = _collect_block(lines, i)
+            # The body is parsed once and runs in every pass.
+            _forget_names(ctx, _written_names(block))
             loop_body.extend(
                 _parse_simple_lines(
                     block,
